@@ -11,7 +11,7 @@
     Oriented regions: the limits of an axis may descend; [mins]/[maxs] are the smaller/larger limit of every axis (the box spanned by the limits),
     [descending lo hi] counts the axes with descending limits. *)
 From Coq Require Import Reals ZArith List.
-From LP Require Import Num NumR C13_Model C14_Model C14_Proofs C14_Proofs_Hist C14_Proofs_Orient C14_Proofs_Rebin C14_Proofs_Front.
+From LP Require Import Num NumR C13_Model C14_Model C14_Proofs C14_Proofs_Hist C14_Proofs_Orient C14_Proofs_Rebin C14_Proofs_Front C14_Proofs_Total C14_Proofs_VegasOk.
 Import ListNotations.
 Local Open Scope R_scope.
 
@@ -275,3 +275,59 @@ Theorem C14_front_plain_mc_constant_exact (us : Z -> R) (I : backend -> (R -> re
   integrate_3d ROps I (mc_of us s) M_MonteCarlo (fun _ _ _ => c) x1 x2 y1 y2 z1 z2 p = Ok ((x2 - x1) * (y2 - y1) * (z2 - z1) * c).
 Proof. exact (front_plain_mc_constant_exact us I s c x1 x2 y1 y2 z1 z2 p). Qed.
 Print Assumptions C14_front_plain_mc_constant_exact.
+
+(** SEVENTH PASS.  "call budgets 1e3..1e6", "evaluate the integrand only at points inside the given hyper-rectangle": Integrate_MC_Miser comes to an end on EVERY request in
+    >= 1 dimensions — every integrand, every stream (no premise on either), every budget >= 0: the recursion is at most ncall/15 + 2 levels deep (every level with >= 60 points
+    hands 15 <= nptl, nptr <= npts - 30 points to its halves), the split dimension jb — chosen from the pre-sample or, when no dimension qualifies, from the counter iran,
+    which stays in 0..174999 — is a valid index of region and rmid (no read outside a container: the outcome is [Ok], not [OOB] / [Fuel]), and the generator is left at position
+    ncall * dim: the integrand is evaluated EXACTLY ncall times, each time at a fresh Random_Point (hypotheses satisfiable: C14_miser_total_example). *)
+Theorem C14_miser_completes_and_spends_budget (us : Z -> R) (s : vstate) (f : list R -> R) (region : list R) (ncall : Z) :
+  length region = (2 * rdim region)%nat -> (1 <= rdim region)%nat -> (0 <= ncall)%Z ->
+  exists ave iran', miser ROps us (Z.to_nat (ncall / 15 + 2)) f region ncall 0 0 = Ok (ave, iran', (ncall * Z.of_nat (rdim region))%Z) /\
+                    integrate_mc ROps us s M_Miser f region ncall = Ok (mc_volume ROps region * ave, s).
+Proof. exact (integrate_mc_miser_total us s f region ncall). Qed.
+Print Assumptions C14_miser_completes_and_spends_budget.
+
+(** "integrate constants exactly", Miser, now WITHOUT the proviso "whenever the model's fuel suffices" of C14_miser_constant_exact: the outcome is [Ok] and equals V * c. *)
+Theorem C14_miser_constant_exact_total (us : Z -> R) c region ncall :
+  length region = (2 * rdim region)%nat -> (1 <= rdim region)%nat -> (15 <= ncall)%Z -> - big ROps <= c <= big ROps ->
+  integrate_miser ROps us (fun _ => c) region ncall = Ok (volume (lows region) (highs region) * c).
+Proof. exact (integrate_miser_constant_total us c region ncall). Qed.
+Print Assumptions C14_miser_constant_exact_total.
+
+Example C14_miser_total_example :
+  length [0; 2; 1; 5] = (2 * rdim [0; 2; 1; 5])%nat /\ (1 <= rdim [0; 2; 1; 5])%nat /\ (15 <= 1000)%Z /\ - big ROps <= 3 <= big ROps.
+Proof. exact miser_total_example. Qed.
+
+(** Plain Monte Carlo: the loop of Integrate_MC_Brute_Force leaves the generator at position ncall * dim — exactly ncall evaluations, for every integrand and stream. *)
+Theorem C14_plain_mc_spends_budget (us : Z -> R) (f : list R -> R) (region : list R) (ncall : Z) :
+  length region = (2 * rdim region)%nat -> (0 <= ncall)%Z ->
+  fst (N.iter (Z.to_N ncall) (brute_force_step ROps us f region (mc_volume ROps region)) (0%Z, 0)) = (ncall * Z.of_nat (rdim region))%Z.
+Proof. exact (brute_force_budget us f region ncall). Qed.
+Print Assumptions C14_plain_mc_spends_budget.
+
+(** Vegas comes to an end and stays inside its containers (over the reals, where the NaN exit cannot be taken): the for(;;) loop over the cells of the stratification is an
+    odometer kg[ndim-1], ..., kg[0] with digits 1..ng — [kval ng kg] is the number it shows, least significant digit first; one step adds 1 and reports "all cells done" exactly
+    when the number wraps around at ng^ndim, for every ng >= 1 and every number of digits ... *)
+Theorem C14_vegas_odometer (ng : Z) : (1 <= ng)%Z -> forall kg, Forall (fun g => (1 <= g <= ng)%Z) kg ->
+  ((kval ng kg + 1 < zpow ng (length kg))%Z -> snd (kg_advance kg ng) = false /\ kval ng (fst (kg_advance kg ng)) = (kval ng kg + 1)%Z) /\
+  ((kval ng kg + 1 = zpow ng (length kg))%Z -> snd (kg_advance kg ng) = true).
+Proof. exact (kg_advance_val ng). Qed.
+Print Assumptions C14_vegas_odometer.
+
+(** ... so the loop makes exactly ng^ndim passes (the model's fuel), every sample falls into a bin in use (the accumulation d[ia[j]-1][j] += ... never leaves the nd entries in
+    use, also for the bins of the last sample of a cell that the mds < 0 branch reuses), and the refinement never fails: under the invariant [vlive_ok] any number of iterations
+    has the outcome [Ok] — not [OOB] (a read or write outside the part of a container in use), not [Fuel] (a loop that does not end within its bound), for EVERY integrand ... *)
+Theorem C14_vegas_iterations_complete (us : Z -> R) : (forall k, 0 < us k < 1) -> forall region dxs (f : list R -> R) n itmx s integral pos,
+  vlive_ok region dxs n s -> exists v s' pos', vegas_iterations ROps us itmx f s region integral pos = Ok (v, s', pos').
+Proof. exact (vegas_iterations_ok us). Qed.
+Print Assumptions C14_vegas_iterations_complete.
+
+(** ... and so has the whole call Integrate_MC(..., "Vegas"), from whatever statics earlier calls left behind, in 1..10 dimensions with budgets >= 2 (hypotheses satisfiable:
+    vegas_call_example, stream_example).  Not a theorem for doubles: that the NaN exit is never taken (K-C14-1 is about accuracy, not about this exit; the zero function used to
+    take it: fixed in 9c7f857, covered by the cases tagged zero). *)
+Theorem C14_vegas_completes (us : Z -> R) : (forall k, 0 < us k < 1) -> forall s (f : list R -> R) region ncalls,
+  wf_statics s -> (1 <= rdim region <= 10)%nat -> (2 <= ncalls)%Z -> ordered (lows region) (highs region) ->
+  exists v s', integrate_mc ROps us s M_Vegas f region ncalls = Ok (v, s').
+Proof. exact (integrate_mc_vegas_ok us). Qed.
+Print Assumptions C14_vegas_completes.
